@@ -209,9 +209,19 @@ func (e *Exec) newLoc(t types.Type) *Loc {
 		}
 	case *types.Array:
 		l.agg = true
-		l.sub = make([]*Loc, int(u.Len()))
-		for i := range l.sub {
-			l.sub[i] = e.newLoc(u.Elem())
+		n := int(u.Len())
+		l.sub = make([]*Loc, n)
+		if isAggregate(u.Elem()) {
+			for i := range l.sub {
+				l.sub[i] = e.newLoc(u.Elem())
+			}
+		} else if n > 0 {
+			z := e.zero(u.Elem())
+			locs := make([]Loc, n)
+			for i := range l.sub {
+				locs[i] = Loc{typ: u.Elem(), v: z}
+				l.sub[i] = &locs[i]
+			}
 		}
 	default:
 		l.v = e.zero(t)
